@@ -1356,3 +1356,17 @@ VP("C14-R3D-mut-prefix-dropped", "C14", "shared _env_join helper: prefix dropped
    "    parts = [prefix] if isinstance(prefix, str) and prefix else []", "    parts = [] if isinstance(prefix, str) and prefix else [prefix]")
 VP("C14-R3C-mut-skip-unbound", "C14", "flag-based skip: skips although the field has no variable name", "C14-R3C", CORE,
    "            env_wins = False\n", "            env_wins = True\n")
+
+# ---- round 3: mutants of the spellings accepted after the round-3 refactorings
+VP("C08-R3D-mut-no-cycle", "C08", "big-integer XOR with the key not repeated", "C08-R3D", ENC,
+   "bytes(islice(cycle(self.__key), size))", "bytes(islice(self.__key, size))")
+VP("C08-R3D-mut-byteorder", "C08", "big-integer XOR turned back in the other byte order", "C08-R3D", ENC,
+   'return mixed.to_bytes(size, "big")', 'return mixed.to_bytes(size, "little")')
+VP("C08-R3C-mut-overwrite", "C08", "indexed loop stores the key byte instead of the XOR", "C08-R3C", ENC,
+   "out[pos] = out[pos] ^ key_byte", "out[pos] = key_byte")
+VP("C08-R3C-mut-best-is-xor", "C03", "assign-then-return form: best resolves to xor when AES is available", "C08-R3C", ENC,
+   'resolved = "aes" if AES_AVAILABLE else "xor"', 'resolved = "xor" if AES_AVAILABLE else "aes"')
+VP("C08-R3C-mut-provider-swap", "C03", "assign-then-return form: xor requested, AES provider built, 'xor' recorded", "C08-R3C", ENC,
+   "            provider = XorProvider(self.__key)", "            provider = AesProvider(self.__key)")
+VP("C08-R3C-mut-best-unresolved", "C03", "assign-then-return form: 'best' recorded unresolved", "C08-R3C", ENC,
+   '        elif resolved == "xor":\n            provider = XorProvider(self.__key)', '        elif resolved == "xor" or method == "best":\n            resolved = method\n            provider = XorProvider(self.__key)')
